@@ -134,12 +134,23 @@ def is_problog_error(exc):
     return isinstance(exc, ProbLogError)
 
 
+ERROR_CLASSES = {}
+
+
+def is_grounding_error(name):
+    from problog.errors import GroundingError
+
+    cls = ERROR_CLASSES.get(name)
+    return cls is not None and issubclass(cls, GroundingError)
+
+
 def classify_exception(exc):
     """('error', ClassName) for user-facing ProbLog errors, ('crash', signature) for everything else,
     ('resource', name) for resource exhaustion."""
     if isinstance(exc, RESOURCE_ERRORS):
         return ("resource", type(exc).__name__)
     if is_problog_error(exc):
+        ERROR_CLASSES[type(exc).__name__] = type(exc)
         return ("error", type(exc).__name__)
     return ("crash", exc_signature(exc))
 
